@@ -187,6 +187,28 @@ def naming_locals(P, F):
     return out
 
 
+def helper_call(P, F, n):
+    """(parameter keys, returned expression, argument nodes) if n calls a free function defined in the caller's own source
+    file (a file-local helper) whose body is one return statement, possibly preceded by naming locals"""
+    if n.get("k") != "CallExpr" or not n.get("callee"):
+        return None
+    G = P.funcs.get(n["callee"])
+    if G is None or G.body is None or G is F or G.file != F.file:
+        return None
+    d = P.d(n["callee"])
+    if d.get("k") not in ("Function",):
+        return None
+    st = [x for x in (G.body.get("c") or []) if x is not None] if G.body.get("k") == "CompoundStmt" else [G.body]
+    nl = naming_locals(P, G)
+    rest = [x for x in st if not (x.get("k") == "DeclStmt" and all(v.get("k") != "VarDecl" or v.get("r") in nl.vals or v.get("r") in nl.lams for v in x.get("c", [])))]
+    if len(rest) != 1 or rest[0].get("k") != "ReturnStmt" or not rest[0].get("c"):
+        return None
+    args = [a for a in n["c"][1:] if a is None or a.get("k") != "CXXDefaultArgExpr"]
+    if len(args) != len(G.params):
+        return None
+    return list(G.params), rest[0]["c"][0], args, G
+
+
 def lambda_call(n, subst):
     """(parameter keys, body expression, argument nodes) if n calls a single-return local lambda known to subst"""
     if subst is None or n.get("k") != "CXXOperatorCallExpr" or n.get("op") != "()" or not n.get("c"):
@@ -400,6 +422,13 @@ class Sym:
         if k == "CallExpr":
             d = P.d(n.get("callee")) if n.get("callee") else {}
             qn = d.get("qn", "?")
+            hc = helper_call(P, self.F, n) if self.subst is not None else None
+            if hc is not None and depth < 60:
+                # a single-return helper of the same source file stands for its body with the arguments substituted
+                params, body, hargs, G = hc
+                vals = [rec(a) for a in hargs]
+                inner = Sym(P, G, inline_locals=True, env=dict(zip(params, vals)), name_only=self.name_only, hook=self.hook)
+                return inner(body, depth + 1)
             args = [rec(x) for x in c[1:]]
             if qn in self.MATH:
                 try:
